@@ -294,7 +294,8 @@ func (d *Dispenser) numLineBreaks(tknIdx int) int {
 	if tknIdx < 0 || tknIdx >= len(d.tokens) {
 		return 0
 	}
-	return strings.Count(d.tokens[tknIdx].Text, "\n")
+	// (line breaks that the replacement of environment references put into the text are not in the file)
+	return strings.Count(d.tokens[tknIdx].Text, "\n") - d.tokens[tknIdx].envBreaks
 }
 
 // isNewLine determines whether the current token is on a different
